@@ -7,6 +7,7 @@ package sstruct
 import (
 	"encoding/json"
 	"fmt"
+	"math"
 	"reflect"
 	"sort"
 
@@ -32,6 +33,7 @@ type Field struct {
 	Str     string              `json:"str,omitempty"`
 	Bool    bool                `json:"bool,omitempty"`
 	Num     *float64            `json:"num,omitempty"`
+	NumSpec string              `json:"num_special,omitempty"` // nan | +inf | -inf: a float no JSON text denotes (wild mode)
 	Int     *int                `json:"int,omitempty"`
 	Raw     string              `json:"raw,omitempty"`
 	Any     *jv.V               `json:"any,omitempty"`     // *any (Const): pointer to this value
@@ -114,6 +116,17 @@ func (b *builder) build(sp *Spec) *jsonschema.Schema {
 		case *float64:
 			if f.Num != nil {
 				x := *f.Num
+				fv.Set(reflect.ValueOf(&x))
+			}
+			switch f.NumSpec {
+			case "nan":
+				x := math.NaN()
+				fv.Set(reflect.ValueOf(&x))
+			case "+inf":
+				x := math.Inf(1)
+				fv.Set(reflect.ValueOf(&x))
+			case "-inf":
+				x := math.Inf(-1)
 				fv.Set(reflect.ValueOf(&x))
 			}
 		case *int:
@@ -361,6 +374,10 @@ func (g *gen) node(depth int) *Spec {
 				x = []float64{1, 2, 0.5, 2.5, 0.25, 3}[g.n(6, "mult")]
 			}
 			f.Num = &x
+			if g.o.Wild && g.n(8, "nonfinite") == 0 {
+				f.Num = nil
+				f.NumSpec = []string{"nan", "+inf", "-inf"}[g.n(3, "nonfinitekind")]
+			}
 		case reflect.TypeFor[*int]():
 			x := g.n(5, "int")
 			if g.o.Wild && g.n(6, "negint") == 0 {
